@@ -20,6 +20,8 @@ def _cases(path):
     with open(path, errors="replace") as f:
         for line in f:
             line = line.rstrip("\n")
+            if line.startswith("B "):      # information about a restart batch, not part of any case
+                continue
             if line.startswith(("C M ", "S ", "W ")):
                 if cur:
                     out.append(cur)
@@ -625,6 +627,9 @@ class C14(Check):
                 stats = {k: int(v) for k, v in core.parse_kv(l).items() if v.lstrip("-").isdigit()}
         if not stats:
             raise core.TieBroken("driver:c14:no-stats", "\n".join(lines[-20:]))
+        if stats.get("state_file_max_bytes", 0) < 2 * 65536 or stats.get("s_restored_before_dump", 0) < 4 or stats.get("s_too_deep", 0) < 1:
+            raise core.TieBroken("generator:c14:coverage", "the restart generator no longer produces a state file above 128 KiB, "
+                                 "modifications restored before the last dump, or state beyond the decoder's nesting limit: " + str(stats))
         stats.update(total)
         res.stats = stats
         res.evaluations = stats.get("steps", 0)
